@@ -52,7 +52,7 @@ class Frame:
         self.cls_qual = cls_qual
         self.locals: dict[str, V] = {}
         self.closure = closure
-        self.loop_ordinal = 0
+        self.loop_index = {}
 
     def lookup(self, name):
         f = self
@@ -285,6 +285,8 @@ class Engine:
         from . import maps as _m
         _b.install(self)
         _m.install(self)
+        from . import symlist as _sl
+        _sl.install(self)
 
     # ------------------------------------------------------------------ bookkeeping
     def add_obligation(self, ob: Obligation):
@@ -422,6 +424,7 @@ class Engine:
             raise Unsupported(f"{fr.qual}: too many args")
 
     def run_body(self, ctx, fr, fn, args, kwargs):
+        fr.loop_index = self.loop_ordinals(fn)
         self.bind_params(ctx, fr, fn, args, kwargs)
         ctx.call_depth += 1
         if ctx.call_depth > 12:
@@ -785,9 +788,24 @@ class Engine:
                     names.add(sub.name)
         return names
 
-    def loop_spec(self, fr, text):
-        key = (fr.qual, fr.loop_ordinal)
-        fr.loop_ordinal += 1
+    def loop_ordinals(self, fn):
+        nodes = []
+
+        def visit(n):
+            for ch in ast.iter_child_nodes(n):
+                if isinstance(ch, (ast.FunctionDef, ast.AsyncFunctionDef, ast.Lambda, ast.ClassDef)):
+                    continue
+                if isinstance(ch, (ast.For, ast.While, ast.AsyncFor)):
+                    nodes.append(ch)
+                visit(ch)
+        visit(fn)
+        nodes.sort(key=lambda n: (n.lineno, n.col_offset))
+        return {id(n): i for i, n in enumerate(nodes)}
+
+    def loop_spec(self, fr, text, node):
+        if id(node) not in fr.loop_index:
+            raise Unsupported(f"loop at line {node.lineno} not indexed in {fr.qual}")
+        key = (fr.qual, fr.loop_index[id(node)])
         spec = self.loops.get(key)
         if spec is not None and spec.iter_text is not None and spec.iter_text != text:
             raise Unsupported(f"loop key mismatch for {key}: contract has {spec.iter_text!r}, source has {text!r}")
@@ -795,9 +813,10 @@ class Engine:
 
     def s_For(self, ctx, fr, s):
         text = self.repo.source_segment(fr.mod, s.iter)
-        save_ord = fr.loop_ordinal
-        key, spec = self.loop_spec(fr, text)
+        key, spec = self.loop_spec(fr, text, s)
         it = self.eval(ctx, fr, s.iter)
+        if isinstance(it, VObj) and ("iter", it.cls) in self.models:
+            it = self.models[("iter", it.cls)](ctx, it)
         after_ord = None
         if isinstance(it, (VList, VTuple)) or (isinstance(it, VDict)):
             if isinstance(it, VDict):
@@ -806,7 +825,6 @@ class Engine:
                 items = self.iter_concrete(ctx, it, s)
             broke = False
             for x in items:
-                fr.loop_ordinal = key[1] + 1  # nested loops keep their ordinals per unrolled iteration
                 self.assign(ctx, fr, s.target, x)
                 try:
                     self.exec_block(ctx, fr, s.body)
@@ -815,10 +833,8 @@ class Engine:
                     break
                 except ContinueSig:
                     continue
-                after_ord = fr.loop_ordinal
             if not broke:
                 self.exec_block(ctx, fr, s.orelse)
-            fr.loop_ordinal = max(fr.loop_ordinal, self.count_loops(s.body) + key[1] + 1)
             return
         if not isinstance(it, VSeq):
             raise Unsupported(f"for over {it!r} at line {s.lineno}")
@@ -836,7 +852,7 @@ class Engine:
 
     def s_While(self, ctx, fr, s):
         text = self.repo.source_segment(fr.mod, s.test)
-        key, spec = self.loop_spec(fr, text)
+        key, spec = self.loop_spec(fr, text, s)
         if spec is None:
             raise Unsupported(f"while loop {key} has no invariant (line {s.lineno})")
         self.cut_loop(ctx, fr, s, spec, key, seq=None)
@@ -844,8 +860,6 @@ class Engine:
     def cut_loop(self, ctx, fr, s, spec: LoopSpec, key, seq):
         """Hoare rule for loops: Inv on entry; Inv ∧ guard {body} Inv; continue with Inv ∧ ¬guard."""
         nm = f"{fr.qual}/loop{key[1]}"
-        inner_first = key[1] + 1
-        n_inner = self.count_loops(s.body)
         if spec.invariant is not None:
             ctx.oblige(f"{nm}/inv-entry", spec.invariant(ctx, fr, z3.IntVal(0)))
         # havoc everything the body may change
@@ -876,13 +890,11 @@ class Engine:
             else:
                 if not self.truth(ctx, fr, s.test, f"while@{s.lineno}"):
                     raise Infeasible()  # covered by the exit arm
-            fr.loop_ordinal = inner_first
             try:
                 self.exec_block(ctx, fr, s.body)
             except ContinueSig:
                 pass
             except BreakSig:
-                fr.loop_ordinal = inner_first + n_inner
                 return  # leaves the loop with the current state
             self.check_loop_frame(ctx, nm, head_snapshot, declared)
             if spec.invariant is not None:
@@ -896,7 +908,6 @@ class Engine:
                     raise Infeasible()  # covered by the iterate arm
             if not ctx.feasible():
                 raise Infeasible()
-            fr.loop_ordinal = inner_first + n_inner
             self.exec_block(ctx, fr, s.orelse)
 
     def havoc_heap_value(self, ctx, cur, hint):
